@@ -39,8 +39,9 @@ StreamOk(r) ==
           /\ \A i \in 1..Len(r.alone) : AllOk(r.alone, i) =>
                  (Len(r.ref) >= i /\ r.ref[i].st = "success" /\ r.ref[i].val = r.alone[i].val /\ r.ref[i].end >= r.alone[i].end)
 StepOfImpl(s, r) ==
-    IF r.e = "stream" THEN [ok |-> StreamOk(r) /\ (StreamMech(r) \/ PrintT(<<"MECH", l>>)), st |-> s]
-    ELSE [ok |-> r.ref = r.got /\ (MechAgrees(r) \/ PrintT(<<"MECH", l>>)), st |-> s]
+    IF r.e = "stream" THEN [ok |-> StreamOk(r) /\ (Len(r.text) > 1500 \/ StreamMech(r) \/ PrintT(<<"MECH", l>>)), st |-> s]
+    \* (the informational prediction is skipped for texts of several KiB: folding the transcription over them costs minutes)
+    ELSE [ok |-> r.ref = r.got /\ (Len(r.text) > 1500 \/ MechAgrees(r) \/ PrintT(<<"MECH", l>>)), st |-> s]
 TraceLog == ndJsonDeserialize(IOEnv.TRACE)
 T == INSTANCE TraceBase WITH Log <- TraceLog, InitSt <- 0, StepOf <- StepOfImpl, ResyncAtNew <- FALSE
 Spec == T!Spec
